@@ -262,8 +262,13 @@ def run_case(case):
                 okv = lab.strict_eq(ev, gv) or (n in bad and policy == 'ignore' and gv == ev) or \
                     (ev == '' and gv is None)
             if not okv:
-                add('cell', 'row %d field %r: got %r expected %r (strip=%s)' % (i, n, gv, ev, strip),
-                    '%s/%s' % (fam, 'none_as_text' if (gv == 'None' and ev in ('', None)) else 'cell'))
+                mech = '%s/%s' % (fam, 'none_as_text' if (gv == 'None' and ev in ('', None)) else 'cell')
+                if not strip and isinstance(ev, str) and ev.startswith(' ') and \
+                        (gv == ev.lstrip(' ') or (ev.lstrip(' ') == '' and gv in ('', None))):
+                    # only the leading blanks are gone although strip=False: the CSV dialect was sniffed with
+                    # skipinitialspace=True (tabulator / csv.Sniffer on a small sample)
+                    mech = 'leading_space_lost_sniffed_dialect'
+                add('cell', 'row %d field %r: got %r expected %r (strip=%s)' % (i, n, gv, ev, strip), mech)
                 stop = True
                 break
         if stop:
